@@ -580,7 +580,7 @@ worker_main(int widx, int nworkers, const CheckSpec& spec, Harness* H,
 {
     Agg a;
     const int B = std::max(1, H->batch(spec.property));
-    size_t want_samples = widx == 0 ? 3 : 0;
+    size_t want_samples = 2;
     for (auto& prof : spec.profiles) {
         uint64_t R = tier == "thorough" ? prof.thorough_runs : prof.quick_runs;
         R = (uint64_t)((double)R * scale);
@@ -636,9 +636,9 @@ worker_main(int widx, int nworkers, const CheckSpec& spec, Harness* H,
                       a.vtime += vt;
                       a.per_profile_runs[prof.name]++;
                       a.all_fps.insert(fp);
-                      if (nt) {
-                          a.nontrivial++;
-                          a.fps.insert(fp);
+                      if (nt)
+                          a.nontrivial++, a.fps.insert(fp);
+                      if (nt || a.runs == 1) {
                           if (a.samples.size() < want_samples) {
                               uint64_t s = run_seed(base_seed, spec.property,
                                                     prof.name, idx);
